@@ -4,13 +4,10 @@ import "verif/harness/lib"
 
 // genConvOp: a conversion with a random function, or (1 in 6) the item-wise identity through
 // compose's wrappers (Via "any": toAnyStreamReader + the interface path of unpackStreamReader;
-// "key": withKey and back)
+// "key": withKey and back) or through a stream of any with nil chunks ("nil")
 func genConvOp(r *lib.Rng, h int) Op {
 	if r.Chance(1, 6) {
-		v := "any"
-		if r.Chance(1, 2) {
-			v = "key"
-		}
+		v := []string{"any", "key", "nil"}[r.Intn(3)]
 		return Op{K: "conv", H: h, F: &CFn{}, Via: v}
 	}
 	return Op{K: "conv", H: h, F: genCFn(r)}
